@@ -75,7 +75,7 @@ func record(out string, n int, sum *hx.Summary) {
 				m.Question = append(m.Question, dns.Question{Name: owners[r.Intn(len(owners)-4)], Qtype: uint16(1 + r.Intn(40)), Qclass: dns.ClassINET})
 			}
 		case 3:
-			m.Question[0].Name = longQ[r.Intn(3)*55:]
+			m.Question[0].Name = longQ[r.Intn(3)*56:]
 		}
 		m.Response = true
 		m.Truncated = r.Intn(6) == 0
